@@ -493,6 +493,18 @@ GROUPS["bvd_parse"] = G("bvd_parse", BVD_PRELUDE + digits_prelude("u64") + ["par
 GROUPS["bvd_parse"]["features"] = "#![feature(allocator_api)]\nuse vstd::string::*;"
 GROUPS["bv_parse"] = G("bv_parse", BV_PRELUDE + ["bv_words.rs"] + digits_prelude("u64"), BV_BASE + stub(["bvf.from_binary", "bvf.from_hex", "bvd.from_binary", "bvd.from_hex"]) + verify(["bv.from_binary", "bv.from_hex"]))
 GROUPS["bv_parse"]["features"] = "#![feature(allocator_api)]\nuse vstd::string::*;"
+GROUPS["bvf_fmt"] = dict(name="bvf_fmt", features="use vstd::string::*;", prelude=lambda ctx: BVF_PRELUDE + ["iter.rs", "fmt.rs"],
+    items=lambda ctx: BVF_BASE + [("decl", "decl.BitIterator"), ("stub", "cast.from", {"A": "{I}", "B": "u8"}), ("stub", "cast.to", {"A": "{I}", "B": "u8"})] + stub(BVF_CORE) + stub(["iter.new", "iter.next", "bvf.iter"])
+        + verify(["bvf.fmt_binary", "bvf.fmt_lower_hex", "bvf.fmt_upper_hex", "bvf.fmt_octal"]))
+GROUPS["bvf_iterfwd"] = G("bvf_iterfwd", BVF_PRELUDE + ["iter.rs", "into_iter.rs"], BVF_BASE + [("decl", "decl.BitIterator")] + stub(BVF_CORE) + stub(["iter.new"]) + verify(["bvf.into_iter_ref", "bvf.iter"]))
+FMT3 = ["fmt_binary", "fmt_lower_hex", "fmt_upper_hex", "fmt_octal"]
+GROUPS["bvd_fmt"] = G("bvd_fmt", BVD_PRELUDE + ["iter.rs", "fmt.rs"], BVD_BASE + [("decl", "decl.BitIterator"), ("stub", "cast.from", {"A": "u64", "B": "u8"}), ("stub", "cast.to", {"A": "u64", "B": "u8"})] + stub(BVD_CORE)
+    + stub(["iter.new", "iter.next", "bvd.iter"]) + verify(["bvd." + x for x in FMT3]))
+GROUPS["bvd_iterfwd"] = G("bvd_iterfwd", BVD_PRELUDE + ["iter.rs", "into_iter.rs"], BVD_BASE + [("decl", "decl.BitIterator")] + stub(BVD_CORE) + stub(["iter.new"]) + verify(["bvd.into_iter_ref", "bvd.iter"]))
+GROUPS["bvd_iterfwd"]["features"] = "#![feature(allocator_api)]"
+GROUPS["bvd_fmt"]["features"] = "#![feature(allocator_api)]\nuse vstd::string::*;"
+GROUPS["bv_fmt"] = G("bv_fmt", BV_PRELUDE + ["bv_words.rs", "fmt.rs"], BV_BASE + stub(["bvf." + x for x in FMT3] + ["bvd." + x for x in FMT3]) + verify(["bv." + x for x in FMT3]))
+GROUPS["bv_fmt"]["features"] = "#![feature(allocator_api)]\nuse vstd::string::*;"
 GROUPS["bvd_from_bytes"] = G("bvd_from_bytes", BVD_PRELUDE + ["bytes.rs", "bytes_from.rs"], BVD_BASE + stub(BVD_CORE) + verify(["bvd.from_bytes"]))
 GROUPS["bvd_from_bytes"]["features"] = "#![feature(allocator_api)]"
 GROUPS["bvd_bytes"] = G("bvd_bytes", BVD_PRELUDE + ["bytes.rs"], BVD_BASE + stub(BVD_CORE) + verify(["bvd.to_vec"]))
@@ -879,6 +891,11 @@ for _p in ("C01", "C04", "C11", "C12", "C13"):
 def parse_jobs(ws):
     return [("bvf_parse", {"I": i}) for i in ws] + [("bvd_parse", U64), ("bv_parse", U64)]
 PROPS["C15"] = {"quick": parse_jobs(WQ), "thorough": parse_jobs(W4)}
+
+def fmt_jobs(ws):
+    return ([("bvf_fmt", iter_bvf(i)) for i in ws] + [("bvf_iterfwd", iter_bvf(i)) for i in ws]
+            + [("bvd_fmt", dict(U64, **ITER_BVD)), ("bvd_iterfwd", dict(U64, **ITER_BVD)), ("bv_fmt", U64)])
+PROPS["C14"] = {"quick": fmt_jobs(WQ), "thorough": fmt_jobs(W4)}
 
 MANIFEST_TEXT = {}
 TRUST_NOTE = ("Trusted base (also listed verbatim in the evidence): assumed contracts of std functions (T1: overflowing_add/sub, "
